@@ -703,7 +703,8 @@ func init() {
 					L.reg.Insert(lv, cf.LocalBase)
 				}
 				// +inline-call L.initCallFrame cf
-				// +inline-call L.reg.CopyRange base RA -1 reg.Top()-RA-1
+				// the function and every register of the new frame, the last one too (it holds arg)
+				// +inline-call L.reg.CopyRange base RA -1 reg.Top()-RA
 				cf.Base = base
 				cf.LocalBase = base + (cf.LocalBase - lbase + 1)
 			}
